@@ -28,6 +28,30 @@ EXPLANATION = (
 NOT_DECIDED = "Full liveness of arbitrary loops (that the other readiness conditions eventually hold); several waiters per signal are covered only through the per-node bookkeeping."
 
 
+def check_state_copy_keeps_record(ctx, rule: str) -> None:
+    """Every superstep starts from ``state.copy()``: the copy must carry each execution record whole — a record rebuilt
+    field by field names every field of the record class (else the dropped one, e.g. the consumed wait_for versions,
+    silently reverts to its default and an old signal counts as fresh again)."""
+    db, rep = ctx.db, ctx.rep
+    gs = db.cls("runners._shared.types.GraphState")
+    ne = db.cls("runners._shared.types.NodeExecution")
+    cp = gs.methods["copy"]
+    fields = [n.target.id for n in ne.node.body if isinstance(n, ast.AnnAssign) and isinstance(n.target, ast.Name)]
+    if len(fields) < 3:
+        raise AnalysisError("NodeExecution fields not recognised")
+    ok, why = False, "the per-record copy was not recognised"
+    for c in db.calls_in(cp):
+        d = (dotted(c.func) or "").split(".")[-1]
+        if d == "replace" and c.args:
+            ok, why = True, "records are copied with dataclasses.replace (every field not named is carried over)"
+        elif d == ne.name:
+            named = {k.arg for k in c.keywords} | set(fields[: len(c.args)])
+            missing = [f_ for f_ in fields if f_ not in named]
+            ok = not missing
+            why = "the rebuilt record names every field" if ok else f"the record is rebuilt without {missing}: after the next state copy a waiter's consumed signal versions read as 0, any existing signal counts as fresh and the waiter restarts without a new production"
+    rep.add(rule, f"{cp.qname}:record-carried-whole", ok, cp.loc(), why)
+
+
 def check_wait_freshness(ctx, rule: str) -> None:
     """On re-execution a waited-for name is fresh iff its current version is strictly greater than the consumed one;
     on first execution it must exist."""
@@ -106,6 +130,7 @@ def run(ctx) -> None:
 
     # ---- R1 ---------------------------------------------------------------------
     check_wait_freshness(ctx, "C17.R1")
+    check_state_copy_keeps_record(ctx, "C17.R2")
 
     # ---- R2 ---------------------------------------------------------------------
     from sa.effects import Effects
